@@ -89,7 +89,7 @@ def required_counters(tier):
          'judged:readback-format-given': 200 * k, 'judged:readback-extension-inferred': 700 * k,
          'judged:readback-content-inferred': 500 * k, 'judged:readback-gzip-copy': 1000 * k,
          'judged:write-extension-identified': 100 * k, 'judged:unknown-format': 80, 'judged:no-stray-files': 200 * k,
-         'judged:overwritten-completely': 80 * k, 'skipped-element-success': 100 * k, 'overwrite-through-symlink': 20 * k, 'destination-spelled-home-relative': 20 * k}
+         'judged:overwritten-completely': 80 * k, 'skipped-element-success': 100 * k, 'overwrite-through-symlink': 20 * k, 'destination-spelled-home-relative': 20 * k, 'destination-already-holds-the-same-content': 50 * k}
     for f in FORMATS:
         d[f'success:{f}'] = 25 * k
         d[f'raised-on-injection:{f}'] = (100 if f != 'ds9' else 40) * k      # ds9 now skips (with a warning) what it cannot express; only bad options raise
@@ -545,13 +545,31 @@ def run_cell(case, obs, casedir):
     path = os.path.join(casedir, 'out' + case['ext'])
     target = os.path.join(casedir, 'real-target.bin')
     contentfmt = fmt if fmt in FORMATS else 'ds9'
+    old = old_content(contentfmt)
+    if dest in ('file', 'symlink') and case['cell'] % 4 == 2 and fmt in FORMATS and not unknown:
+        # the destination already holds exactly what this very call would write (the same regions written there a moment ago):
+        # it exists all the same - refused without overwrite=True, like any other existing file
+        from regions import Regions
+        tmp = os.path.join(workdir(), f'same-content-{os.getpid()}' + WRITE_EXTS[fmt][0])
+        try:
+            with warnings.catch_warnings():
+                warnings.simplefilter('ignore')
+                (regs[0] if api == 'Region' else Regions(list(regs))).write(tmp, format=fmt, overwrite=True, **{k: (dict(v) if isinstance(v, dict) else v) for k, v in kw.items()})
+            with open(tmp, 'rb') as fh:
+                old = fh.read()
+            obs.count('destination-already-holds-the-same-content')
+        except Exception:
+            pass
+        finally:
+            if os.path.lexists(tmp):
+                os.remove(tmp)
     if dest == 'file':
         with open(path, 'wb') as fh:
-            fh.write(old_content(contentfmt))
+            fh.write(old)
     elif dest in ('symlink', 'dangling'):
         if dest == 'symlink':
             with open(target, 'wb') as fh:
-                fh.write(old_content(contentfmt))
+                fh.write(old)
         os.symlink('real-target.bin', path)
     before = snap(path)
     before_t = snap(target)
@@ -721,6 +739,15 @@ def run_cell(case, obs, casedir):
         with gzip.open(p + '.gz', 'wb') as fh:
             fh.write(data)
         rb('readback-gzip-copy', f'a gzip copy named {os.path.basename(p)}.gz', p + '.gz')
+    # stacked extensions: the LAST extension names the format ('field.reg.fits' is a FITS file, 'field.fits.reg' a DS9 one)
+    for ofmt in FORMATS:
+        if ofmt == fmt:
+            continue
+        name = 'stacked' + WRITE_EXTS[ofmt][0] + WRITE_EXTS[fmt][0]
+        p = os.path.join(casedir, name)
+        with open(p, 'wb') as fh:
+            fh.write(data)
+        rb('readback-extension-inferred', f'a copy named {name}', p)
     # (file names are arbitrary: capital letters, blanks, dots; also an upper-case spelling of a registered extension)
     for name in ('renamed.dat', 'renamed', 'NGC 1365_Field-B.v2.dat'):
         p = os.path.join(casedir, name)
